@@ -1,0 +1,163 @@
+//! Read-only observation hooks for external verification tooling.
+//!
+//! Nothing in here is compiled unless the `verif-hooks` feature is enabled,
+//! and nothing in here changes the behaviour of the interpreter.
+
+use std::ops::Range;
+
+use crate::{
+    interpreter_error::{InterpreterError, OutOfMemoryError, TracedInterpreterError},
+    program::{ProgramLine, ProgramLocation},
+    random::Rng,
+    string_manager::StringManager,
+    syntax_error::{SyntaxError, TokenizationError},
+    tokenizer::{Token, Tokenizer},
+    value::Value,
+    Interpreter,
+};
+
+pub fn hex(bytes: &[u8]) -> String {
+    bytes.iter().map(|b| format!("{:02x}", b)).collect()
+}
+
+/// Bit pattern of a number; all NaNs are identified.
+pub fn enc_f64(value: f64) -> String {
+    if value.is_nan() {
+        "nan".to_string()
+    } else {
+        format!("{:016x}", value.to_bits())
+    }
+}
+
+pub(crate) fn enc_value(value: &Value) -> String {
+    match value {
+        Value::String(s) => format!("s{}", hex(s.as_bytes())),
+        Value::Number(n) => format!("n{}", enc_f64(*n)),
+    }
+}
+
+pub(crate) fn enc_loc(location: &ProgramLocation) -> String {
+    match location.line {
+        ProgramLine::Immediate => format!("imm:{}", location.token_index),
+        ProgramLine::Line(n) => format!("{}:{}", n, location.token_index),
+    }
+}
+
+pub fn enc_token(token: &Token) -> String {
+    match token {
+        Token::Remark(s) => format!("R:{}", hex(s.as_bytes())),
+        Token::Symbol(s) => format!("Y:{}", hex(s.as_str().as_bytes())),
+        Token::StringLiteral(s) => format!("S:{}", hex(s.as_bytes())),
+        Token::NumericLiteral(n) => format!("N:{}", enc_f64(*n)),
+        Token::Data(items) => format!(
+            "D:{}",
+            items
+                .iter()
+                .map(|item| item.verif_encode())
+                .collect::<Vec<_>>()
+                .join(",")
+        ),
+        other => format!("K:{:?}", other),
+    }
+}
+
+pub(crate) fn enc_tokens(tokens: &[Token]) -> String {
+    tokens.iter().map(enc_token).collect::<Vec<_>>().join(" ")
+}
+
+fn enc_tokenization_error(err: &TokenizationError) -> String {
+    match err {
+        TokenizationError::IllegalCharacter(i) => format!("I:{}", i),
+        TokenizationError::UnterminatedStringLiteral(i) => format!("U:{}", i),
+        TokenizationError::InvalidNumber(range) => format!("N:{}-{}", range.start, range.end),
+    }
+}
+
+/// Tokens with their byte ranges (`tok@start-end`), followed by `!<error>` if
+/// tokenization stopped early.
+pub fn tokenize(line: &str, skip_bytes: usize) -> String {
+    let mut manager = StringManager::default();
+    let tokenizer = Tokenizer::new(line, &mut manager).skip_bytes(skip_bytes);
+    let mut parts: Vec<String> = vec![];
+    for item in tokenizer {
+        match item {
+            Ok((token, Range { start, end })) => {
+                parts.push(format!("{}@{}-{}", enc_token(&token), start, end))
+            }
+            Err(err) => parts.push(format!("!{}", enc_tokenization_error(&err))),
+        }
+    }
+    parts.join(" ")
+}
+
+/// The items of a DATA statement's text (or of an INPUT reply) and the number of bytes consumed.
+pub fn parse_data(text: &str) -> String {
+    let (elements, bytes) = crate::data::parse_data_until_colon(text, None);
+    format!(
+        "{} /{}",
+        elements
+            .iter()
+            .map(|e| e.verif_encode())
+            .collect::<Vec<_>>()
+            .join(","),
+        bytes
+    )
+}
+
+pub fn parse_line_number(text: &str) -> Option<(u64, usize)> {
+    crate::line_number_parser::parse_line_number(text)
+}
+
+pub fn enc_error_kind(err: &InterpreterError) -> String {
+    match err {
+        InterpreterError::Syntax(SyntaxError::Tokenization(t)) => {
+            format!("Syntax.Tokenization.{}", enc_tokenization_error(t))
+        }
+        InterpreterError::Syntax(SyntaxError::ExpectedToken(t)) => {
+            format!("Syntax.ExpectedToken.{:?}", t)
+        }
+        InterpreterError::Syntax(other) => format!("Syntax.{:?}", other),
+        InterpreterError::OutOfMemory(OutOfMemoryError::StackOverflow) => {
+            "OutOfMemory.StackOverflow".to_string()
+        }
+        InterpreterError::OutOfMemory(OutOfMemoryError::ArrayTooLarge) => {
+            "OutOfMemory.ArrayTooLarge".to_string()
+        }
+        other => format!("{:?}", other),
+    }
+}
+
+/// `<kind>@<location or ->`
+pub fn enc_error(err: &TracedInterpreterError) -> String {
+    format!(
+        "{}@{}",
+        enc_error_kind(&err.error),
+        match &err.location {
+            None => "-".to_string(),
+            Some(location) => enc_loc(location),
+        }
+    )
+}
+
+/// Canonical dump of everything the interpreter holds (except interned strings).
+pub fn snapshot(interpreter: &Interpreter) -> String {
+    interpreter.verif_snapshot()
+}
+
+/// Number of token-cursor reads made so far by this interpreter's program.
+pub fn token_reads(interpreter: &Interpreter) -> u64 {
+    interpreter.program.verif_token_reads.get()
+}
+
+/// Deepest expression/statement nesting reached so far.
+pub fn max_nesting(interpreter: &Interpreter) -> usize {
+    interpreter.program.verif_max_nesting
+}
+
+/// One call of the random number generator from a given raw state:
+/// the value (or `None` for the negative-argument error) and the state afterwards.
+pub fn rng_step(seed: u64, argument: f64) -> (Option<f64>, u64) {
+    let mut rng = Rng::new(seed);
+    let value = rng.rnd(argument).ok();
+    (value, rng.verif_seed())
+}
